@@ -27,6 +27,7 @@ KINDS = [
     ("precondition not satisfied", "pre"),
     ("precondition not met", "pre"),
     ("possible arithmetic underflow/overflow", "overflow"),
+    ("possible bit shift underflow/overflow", "overflow"),
     ("invariant not satisfied at end of loop body", "inv-step"),
     ("invariant not satisfied before loop", "inv-entry"),
     ("decreases not satisfied", "decreases"),
